@@ -25,7 +25,10 @@ RULE = ('one evaluation = one (declaration, value vector, driver_scaling) query 
         '(filter, value vector) query, one _compute_con_viol call or one find_feasible run; '
         'non-trivial = at least one element violates a bound or an equality and another element of '
         'the same query is satisfied or violates a different side (size 1: violated); for '
-        'find_feasible: the start point is infeasible.  Every combination is enumerated once.')
+        'find_feasible: the start point is infeasible; plus the least-squares point of an infeasible '
+        'pair of constraints (every linear-flag assignment x driver {base, SLSQP} x declaration order '
+        'x driver_scaling x 3 ref pairs x 2 slopes) against its closed form.  Every combination is '
+        'enumerated once.')
 LEVEL_TEXT = ('The violation is a per-element case distinction (below / inside / above, equality) '
               'combined with per-element bounds and scalers; every combination of element state, bound '
               'form (scalar/array, one/two sided, +-INF_BOUND entries), scaling form and flag inside '
@@ -662,9 +665,66 @@ def _bcls(label):
     return 'scalar' if label.startswith('sc_') else 'array'
 
 
+# ------------------------------------------------------------------ find_feasible, least-squares point
+
+def check_ffmix(case):
+    """An infeasible pair of scalar constraints on x (one flagged linear, one not): find_feasible
+    minimises the sum of squared violations in the requested units, so the point it converges to is
+    known in closed form:  g_a = ka*x >= 2 (scaler sa), g_b = kb*x <= 0 (scaler sb)
+        min (wa (ka x - 2))^2 + (wb kb x)^2   ->  x = 2 ka wa^2 / (ka^2 wa^2 + kb^2 wb^2)
+    with w = scaler under driver_scaling and 1 otherwise."""
+    import openmdao.api as om
+    ka, kb = case['k']
+    ra, rb = case['refs']
+    vio = []
+    cls = '%s/lin=%s/ds=%s' % (case['driver'], case['lin'], case['ds'])
+    p = om.Problem(reports=None)
+    if case['driver'] == 'slsqp':
+        p.driver = om.ScipyOptimizeDriver(optimizer='SLSQP', disp=False)
+    p.model.add_subsystem('comp', om.ExecComp(['ga = %r * x' % ka, 'gb = %r * x' % kb,
+                                               'f = x * x']), promotes=['*'])
+    p.model.add_design_var('x', lower=-50., upper=50.)
+    p.model.add_objective('f')
+    decl = [('ga', dict(lower=2.0, ref=ra)), ('gb', dict(upper=0.0, ref=rb))]
+    if case['order'] == 'ba':
+        decl = decl[::-1]
+    for name, kw in decl:
+        p.model.add_constraint(name, linear=(name[1] in case['lin']), **kw)
+    try:
+        with contextlib.redirect_stdout(io.StringIO()):
+            p.setup()
+            p.set_val('x', case['x0'])
+            p.final_setup()
+            p.find_feasible(driver_scaling=bool(case['ds']), iprint=0, ftol=1e-14, xtol=1e-14,
+                            gtol=1e-14)
+    except Exception as exc:
+        vio.append({'sig': 'C22:ffmix_raises:%s' % cls, 'case': dict(case),
+                    'msg': '%s: %s' % (type(exc).__name__, str(exc)[:300])})
+        return {'evals': 1, 'nontrivial': 0, 'outcome': {'violation': 1}, 'violations': vio}
+    x = float(p.get_val('x')[0])
+    wa, wb = (1.0 / ra, 1.0 / rb) if case['ds'] else (1.0, 1.0)
+    want = 2.0 * ka * wa ** 2 / (ka ** 2 * wa ** 2 + kb ** 2 * wb ** 2)
+    if abs(x - want) > 1e-5 * max(1.0, abs(want)):
+        vio.append({'sig': 'C22:ffmix_point:%s' % cls, 'case': dict(case),
+                    'msg': 'find_feasible [%s k=%s refs=%s order=%s x0=%s] converged to x=%.9g; the '
+                           'minimiser of the squared violations in the requested units is %.9g' % (
+                               cls, case['k'], case['refs'], case['order'], case['x0'], x, want)})
+    return {'evals': 1, 'nontrivial': int(not vio), 'outcome': {'violation' if vio else 'ffmix_ok': 1},
+            'violations': vio}
+
+
 def cases(tier, seed):
     pal = seed % 4
     out = []
+    for driver in ('base', 'slsqp'):
+        for lin in ('', 'a', 'b', 'ab'):
+            for ds in (True, False):
+                for order in ('ab', 'ba'):
+                    for refs in ((0.1, 1.0), (0.25, 2.0), (1.0, 1.0)):
+                        for k in ((1.0, 1.0), (2.0, 0.5)):
+                            out.append({'kind': 'ffmix', 'driver': driver, 'lin': lin, 'ds': ds,
+                                        'order': order, 'refs': list(refs), 'k': list(k),
+                                        'x0': 0.5 if pal % 2 == 0 else -0.75})
     pals = [pal] if tier == 'quick' else [pal, (pal + 1) % 4]
     for pl in pals:
         for n in (1, 2, 3):
@@ -699,4 +759,6 @@ def check_case(case):
             return check_multi(case)
         if kind == 'ff':
             return check_ff(case)
+        if kind == 'ffmix':
+            return check_ffmix(case)
     raise ValueError(kind)
